@@ -1,0 +1,20 @@
+// SPDX-FileCopyrightText: 2022-present Intel Corporation
+//
+// SPDX-License-Identifier: Apache-2.0
+
+//go:build verif
+
+// Verification hooks: constructors and wrappers used only by the external verification harness
+// (built with -tags verif).  Nothing here changes the behaviour of the package.
+
+package target
+
+import (
+	"github.com/onosproject/onos-config/pkg/southbound/gnmi"
+	"github.com/onosproject/onos-config/pkg/store/topo"
+)
+
+// NewReconcilerForVerif returns the target reconciler so that single Reconcile steps can be driven
+func NewReconcilerForVerif(topo topo.Store, conns gnmi.ConnManager) *Reconciler {
+	return &Reconciler{conns: conns, topo: topo}
+}
